@@ -1,5 +1,6 @@
 import MjProof.Lemmas.SolverCert
 import MjProof.Lemmas.PrimalSearch
+import Mathlib.Algebra.Order.Star.Real
 /-
 C10  Constraint solvers return the optimum of the documented problem.
 
@@ -138,7 +139,7 @@ theorem block_cost_separates {n₁ n₂ m₁ m₂ : ℕ}
   have hsub : Sum.elim a₁ a₂ - Sum.elim a0₁ a0₂ = Sum.elim (a₁ - a0₁) (a₂ - a0₂) := by
     funext i; cases i <;> simp
   rw [hsub, Matrix.fromBlocks_mulVec, Matrix.fromBlocks_mulVec]
-  simp only [Matrix.zero_mulVec, add_zero, zero_add]
+  simp only [Matrix.zero_mulVec, add_zero, zero_add, Sum.elim_comp_inl, Sum.elim_comp_inr]
   have hq : Sum.elim (a₁ - a0₁) (a₂ - a0₂) ⬝ᵥ Sum.elim (M₁ *ᵥ (a₁ - a0₁)) (M₂ *ᵥ (a₂ - a0₂)) =
       (a₁ - a0₁) ⬝ᵥ (M₁ *ᵥ (a₁ - a0₁)) + (a₂ - a0₂) ⬝ᵥ (M₂ *ᵥ (a₂ - a0₂)) := by
     simp [dotProduct, Fintype.sum_sum_type]
@@ -161,16 +162,17 @@ theorem unconstrained_block_minimiser (M : Matrix (Fin n) (Fin n) ℝ) (hM : Sym
 /-! ### line search, acceptance and warm start (model: Model/SolverCert.lean, lemmas: Lemmas/PrimalSearch.lean) -/
 
 open MjProof.PrimalSearch in
-/-- Every exit of the modelled `PrimalSearch`, for EVERY evaluation function and every tolerance / iteration
-    budget: the returned step is `0`, or the returned point was evaluated with `cost(α) − cost(0) < 0`
-    (`LSresult` 0 on the initial / one-sided paths and 4), or the exit is one of the three that the code does not
-    cost-check (`LSresult` 3 "could not bracket", 7 "no improvement, could not bracket", or a bracket candidate with
-    `|derivative| < gtol`); in every case the reported `improvement` is minus the evaluated cost difference. -/
-theorem primalSearch_checked (ev : ℝ → Pnt ℝ) (gtol : ℝ) (lsIter : ℕ) (snormSmall : Bool) :
-    let r := search ev gtol lsIter snormSmall
-    r.alpha = 0 ∨ (r.checked = true ∧ ∃ p, p = ev r.alpha ∧ p.cost < 0 ∧ r.improvement = -p.cost) ∨
-      (r.checked = false ∧ r.improvement = -(ev r.alpha).cost) :=
-  search_exit_cases ev gtol lsIter snormSmall
+/-- Every exit of the modelled `PrimalSearch`, for EVERY evaluation function `e` (shifted cost, first and second
+    derivative along the line), every tolerance and iteration budget: the returned step is `0`, or the returned
+    point was evaluated with `cost(α) − cost(0) < 0` (`checked`: `LSresult` 0 on the initial / one-sided / midpoint
+    paths and 4), or the exit is one of the three that the code does NOT cost-check (`LSresult` 3 "could not
+    bracket", 7 "no improvement, could not bracket", or a bracket candidate with `|derivative| < gtol`); in every
+    case the reported `improvement` is minus the evaluated cost difference at the returned step. -/
+theorem primalSearch_checked (e : Ev ℝ) (gtol : ℝ) (lsIter : ℕ) (snormSmall : Bool) :
+    let r := search e gtol lsIter snormSmall
+    r.alpha = 0 ∨ (r.checked = true ∧ e.cost r.alpha < 0 ∧ r.improvement = -(e.cost r.alpha)) ∨
+      (r.checked = false ∧ r.improvement = -(e.cost r.alpha)) :=
+  search_exit_cases e gtol lsIter snormSmall
 
 open MjProof.PrimalSearch in
 /-- **Partial.**  The modelled main loop of `mj_solPrimal` (`alpha == 0 → stop, else move`) with an exact line
